@@ -1328,6 +1328,9 @@ def every_element_checked(P, R, disp, adt):
 LOSSY_ADAPTORS = {"filter", "skip", "skip_while", "take", "take_while", "step_by", "nth", "last", "find", "max_by_key", "min_by_key"}
 
 
+DIAG_SHORTENERS = {"retain", "retain_mut", "truncate", "dedup", "dedup_by", "dedup_by_key", "drain", "clear", "pop", "split_off"}
+
+
 def documents_all_checked(P, R):
     """the callers of check_operation_document (the CLI) hand it every operation document: no selecting adaptor between the
     collection of documents and the call"""
@@ -1356,6 +1359,30 @@ def documents_all_checked(P, R):
                         lossy.append(r["method"])
                     r = r["recv"]
             child, p = p, acc[p][1]
+        # ... and what it returns reaches the caller's output whole: no selecting / shortening step on the diagnostics
+        dropped = []
+        cur, ci = acc[i][0], i
+        while acc[ci][1] >= 0:
+            pn = acc[acc[ci][1]][0]
+            if pn.get("k") == "MethodCall" and pn.get("recv") is cur:
+                if pn.get("method") in LOSSY_ADAPTORS | DIAG_SHORTENERS:
+                    dropped.append(pn["method"])
+            elif pn.get("k") == "Let" and pn.get("init") is cur and pn["pat"].get("k") == "Binding":
+                lid = pn["pat"]["local"]
+                for y in f.walk():
+                    if y.get("k") == "MethodCall" and y.get("method") in DIAG_SHORTENERS and y["recv"].get("k") in ("Path", "AddrOf"):
+                        b = y["recv"]
+                        while b.get("k") == "AddrOf":
+                            b = b["e"]
+                        if b.get("local") == lid:
+                            dropped.append(y["method"])
+                break
+            elif pn.get("k") not in ("DropTemps", "Use", "AddrOf", "Block", "BlockExpr"):
+                break
+            cur, ci = pn, acc[ci][1]
+        R.check("R03-a", "every:diagnostic@%s" % short(f.path), not dropped, "the diagnostics check_operation_document returns are passed on whole",
+                "%s applies `.%s(..)` to the diagnostics returned by check_operation_document: a violation that was found is dropped before "
+                "it is reported (e.g. every diagnostic located in an imported fragment's file)" % (f.path, "/".join(dropped)), loc=f.loc())
         R.check("R03-a", "every:document@%s" % short(f.path), not lossy, "every operation document reaches check_operation_document",
                 "%s selects among the operation documents with `.%s(..)` before check_operation_document: the documents left out are "
                 "never checked (fragment definitions in a skipped file are validated nowhere)" % (f.path, "/".join(lossy)), loc=f.loc())
@@ -2062,6 +2089,71 @@ def kind_table(P, f, variant, params=None):
     return tab
 
 
+def leaf_parent_routes(P, css):
+    """(leaf kinds for which the selection checker has a path that reports nothing, callers that can hand it such a type without
+    having reported anything | None if the evaluation gave up).  A parameter of a caller that only ever receives the selection
+    checker's own (already vetted) parent type is not a fresh type: it is taken to be composite."""
+    ti = [i for i, t in enumerate(_sig(css)) if T_TYPEDEF in t]
+    if len(ti) != 1:
+        return set(), None
+    ti = ti[0]
+
+    def is_err(ev):
+        return ev[0] == "ctor" and ev[1].startswith(ERR + "::")
+    silent = set()
+    try:
+        for k in sorted(LEAF_OR_INPUT):
+            E = KindEval(P, want=is_err, seeds=[(T_TYPEDEF[:-1], V(k))])
+            if any(not evs for _, evs, _ in E.run(css, {ti: V(k)})):
+                silent.add(k)
+    except TooComplex:
+        return set(), None
+    if not silent:
+        return silent, []
+    scope = [P.fns[p] for p in checker_scope(P) if P.fns[p].kind in ("Fn", "AssocFn")]
+
+    def bare_param(g, arg):
+        e = arg
+        while e.get("k") in ("AddrOf", "DropTemps", "Use") or (e.get("k") == "Unary" and e.get("op") == "Deref"):
+            e = e["e"]
+        if e.get("k") == "Path" and "local" in e:
+            for j, p in enumerate(g.params):
+                if p.get("k") == "Binding" and p["local"] == e["local"]:
+                    return j
+        return None
+    # parameters that only ever receive the checker's own parent type (greatest fixpoint)
+    vetted = {(g.path, i) for g in scope if g.path != css.path for i, t in enumerate(_sig(g)) if T_TYPEDEF in t}
+    changed = True
+    while changed:
+        changed = False
+        for (gp, i) in sorted(vetted):
+            sites = [(h, c) for h, _, c in call_sites(scope, gp) if h.path != gp]
+            ok = bool(sites)
+            for h, c in sites:
+                args = all_args(c)
+                j = bare_param(h, args[i]) if i < len(args) else None
+                if j is None or not ((h.path == css.path and j == ti) or (h.path, j) in vetted):
+                    ok = False
+            if not ok:
+                vetted.discard((gp, i))
+                changed = True
+    routes = set()
+    try:
+        for g in scope:
+            if g.path == css.path or not any(call_name(c) == css.path for c in g.walk() if c.get("k") in ("Call", "MethodCall")):
+                continue
+            fixed = {i: V("Object") for (gp, i) in vetted if gp == g.path}
+            for k in sorted(silent):
+                E = KindEval(P, want=lambda ev: is_err(ev) or (ev[0] == "call" and ev[1] == css.path), seeds=[(T_TYPEDEF[:-1], V(k))])
+                for _, evs, _ in E.run(g, fixed):
+                    calls = [e for e in evs if e[0] == "call" and e[3] is not None and ti < len(e[3]) and e[3][ti] == V(k)]
+                    if calls and not any(is_err(e) for e in evs):
+                        routes.add(short(g.path))
+    except TooComplex:
+        return silent, None
+    return silent, routes
+
+
 def r03i(P, R):
     """kind tables: which type kinds are composite (need/allow a selection set), and the two selection-set rules agree"""
     d = role_fn(P, "nitrogql_semantics::direct_fields_of_output_type::direct_fields_of_output_type")
@@ -2096,6 +2188,17 @@ def r03i(P, R):
     for f, variant, want_on in ((css, "SelectionOnInvalidType", LEAF_OR_INPUT), (csf, "MustSpecifySelectionSet", COMPOSITE)):
         tab = kind_table(P, f, variant, [i for i, t in enumerate(_sig(f)) if T_TYPEDEF in t])
         key = "selection-predicate:" + variant
+        if f is css:
+            # who reports a selection set on a non-composite type: the selection checker itself, or every route into it
+            silent, routes = leaf_parent_routes(P, css)
+            if silent:
+                decide(R, "R03-i", key, None if routes is None else not routes,
+                       "the selection checker accepts %s parents silently, and every route into it reports them first" % sorted(silent),
+                       "check_selection_set returns silently for a parent type of kind %s, and %s hand%s it such a type without reporting anything: "
+                       "a selection set on a non-composite type (e.g. an inline fragment `... on SomeEnum { .. }`) is accepted and its body "
+                       "never checked" % (sorted(silent), ", ".join(sorted(routes or [])), "s" if len(routes or []) == 1 else ""),
+                       "the routes into check_selection_set could not be evaluated", loc=css.loc())
+                continue
         if not makes(P, f.body, variant):
             R.undecided("R03-i", key, "%s is not built in %s" % (variant, short(f.path)), loc=f.loc())
             continue
